@@ -449,6 +449,25 @@ func Run(r *vk.Run) {
 	}
 	close(ch)
 	wg.Wait()
+	// the node's own production loop against a failing execution layer (loop.go)
+	lrng := r.Rand("loop")
+	var lwg sync.WaitGroup
+	lch := make(chan LoopCase)
+	for w := 0; w < 8; w++ {
+		lwg.Add(1)
+		go func() {
+			defer lwg.Done()
+			for c := range lch {
+				r.Guard(c, func() { runLoopCase(r, c) })
+			}
+		}()
+	}
+	for i := 0; i < r.N(24, 400); i++ {
+		lch <- LoopCase{ID: i, Lazy: i%2 == 1, ErrKind: []string{"plain", "wraps-context-canceled"}[(i/2)%2], AtBlock: 2 + lrng.Intn(6), Times: 1 + lrng.Intn(3)}
+	}
+	close(lch)
+	lwg.Wait()
+	r.Require("loop-meets-execution-failure", 12)
 }
 
 // delta draws a time step: whole seconds, or below a second down to one nanosecond (a comparison at a coarser
